@@ -138,6 +138,26 @@ class Scenario:
                 return False
             nw.deliver(s1.fs, d1, run=False)
             nw.deliver(s2.fs, d2)
+        elif kind == "xn":
+            # ("xn", c1, name1, n, c2, name2): connection c1 receives n messages in one segment and connection c2 one message in the
+            # same instant - the node has n answers to write (n wake-up requests from c1's writer) next to whatever c2's message causes
+            s1, s2 = self.sock(ev[1]), self.sock(ev[4])
+            if s1 is None or s2 is None or s1 is s2:
+                return False
+            for s in (s1, s2):
+                if (s.fs.connecting and (not s.fs.conn_done or s.fs.so_error)) or getattr(s, "frags", None):
+                    return False
+            data = b""
+            for _ in range(ev[3]):
+                d1 = self.message(s1, ev[2])
+                if d1 is None:
+                    return False
+                data += d1
+            d2 = self.message(s2, ev[5])
+            if d2 is None:
+                return False
+            nw.deliver(s1.fs, data, run=False)
+            nw.deliver(s2.fs, d2)
         elif kind in ("mfrag", "mtiny"):
             # deliver the next third of message ev[2] on socket ev[1] (a message trickling in over several reads);
             # "mtiny": the first read carries 12 bytes only (less than a header), the second the rest
